@@ -249,6 +249,9 @@ func model(op, cfg string, at []string, cancelAt int) expect {
 // previous attempt's subscription returns. While another goroutine is inside Unsubscribe of that
 // subscription - already marked closed, finalizers (the source's teardown among them) not yet run -
 // Wait must not return: otherwise the next attempt starts before the previous one is released.
+// attemptBudget bounds the number of subscriptions the scripted sources of one case play as scripted.
+const attemptBudget = 60
+
 func runPrimitive(c driver.Case) driver.Result {
 	res := driver.Result{Verdict: driver.Held, Nontrivial: true, Sig: "primitive/" + c.Get("what")}
 	var released atomic.Bool
@@ -342,6 +345,12 @@ func runCase(c driver.Case) driver.Result {
 				}
 			}
 			n := started.Add(1)
+			if n > attemptBudget {
+				// a runaway loop of re-subscriptions (no definition here prescribes more than a handful of
+				// attempts): from now on the source just completes, which ends every one of these operators;
+				// the attempt count reported below tells the rest
+				s.Scripts = []src.Script{src.Parse("C")}
+			}
 			if cancelled.Load() {
 				startedAfterCancel.Add(1)
 			}
